@@ -1,4 +1,4 @@
-import XpmVerif.Generated.TokFlags
+import XpmVerif.Proofs.FileTokSrc
 import XpmVerif.Properties.C09Files
 import XpmVerif.Properties.C08Files
 /-! Source obligations of the file-token model M2' (C08/C09 file part): the decision points of `tokens.py` the model is
@@ -6,10 +6,6 @@ import XpmVerif.Properties.C08Files
     (`Generated/TokFlags.lean`, rewritten on every run), and the theorems of `C08Files`/`C09Files` instantiated with them. -/
 namespace XpmVerif.TokSrc
 open XpmVerif.FileTokens
-
-/-- the model configuration of the source as translated. -/
-def srcCfg (total : Nat) (req : Name → Nat) : Cfg :=
-  { total := total, req := req, tolerant := Gen.tokFlags.tolerant, notifyMissing := Gen.tokFlags.notifyMissing }
 
 /-- source obligation: the watcher callbacks tolerate a half-written token file, `release` notifies on every path, and
     `acquire` / `release` recount before they look at the counter or the cache (what `acquireBegin` / `release` of the model
